@@ -93,7 +93,7 @@ func sessionMain(s *simrt.Sim, info *harness.RunInfo) {
 		abs = idle + time.Duration(s.Range(3, 8))*time.Second
 	}
 	concurrent := s.Chance(400)
-	nclients := s.Range(2, 4)
+	nclients := s.Range(2, harness.Scale(4, 6))
 	preempt := 0
 	if concurrent {
 		preempt = simrt.PickS(s, 150, 50, 400)
@@ -649,7 +649,7 @@ func sessionMain(s *simrt.Sim, info *harness.RunInfo) {
 		var wg sync.WaitGroup
 		for ci := 0; ci < nclients; ci++ {
 			wg.Add(1)
-			n := s.Range(2, 8)
+			n := s.Range(2, harness.Scale(8, 14))
 			plan := make([]time.Duration, n)
 			for i := range plan {
 				plan[i] = thinks[s.Draw(len(thinks))]
@@ -672,7 +672,7 @@ func sessionMain(s *simrt.Sim, info *harness.RunInfo) {
 		for i := range conns {
 			conns[i] = harness.NewConn(app, "10.0.0."+strconv.Itoa(i+1))
 		}
-		n := s.Range(4, 24)
+		n := s.Range(4, harness.Scale(24, 48))
 		for i := 0; i < n && !s.Failed(); i++ {
 			simrt.Sleep(thinks[s.Draw(len(thinks))])
 			ci := s.Draw(nclients)
